@@ -156,7 +156,18 @@ func ResolveAfter(pc protocol.Client, suffix string, stored, unpublished []*oper
 	if unpublished != nil {
 		popts = append(popts, processor.WithUnpublishedOperationStore(&unpubSlice{ops: unpublished}))
 	}
-	p := processor.New("verif", &wire.SliceStore{Ops: stored}, cc, popts...)
+	var store processor.OperationStoreClient = &wire.SliceStore{Ops: stored}
+	if warm != nil {
+		// the long-lived node: its store hands out the same internal slice on every call
+		var mine []*operation.AnchoredOperation
+		for _, op := range stored {
+			if op.UniqueSuffix == suffix {
+				mine = append(mine, op)
+			}
+		}
+		store = wire.NewSharedSliceStore(mine)
+	}
+	p := processor.New("verif", store, cc, popts...)
 	out = &Outcome{}
 	defer func() {
 		if r := recover(); r != nil {
